@@ -15,7 +15,7 @@ from .. import bus, cover, gen, ref
 LEVEL = 'exploration'
 JOBS = {'quick': 2, 'thorough': 16}
 REQUIRED_MONITORS = ('chi2_reference', 'chi2_rigid_motion', 'chi2_relabel')
-REQUIRED_CLASSES = ('calculator:pickle', 'place:coincident', 'place:far-from-origin', 'place:far-from-origin-aligned', 'mobile-array:same-object-overwritten', 'mobile-array:strided-or-fortran', 'restr:none', 'restr:partial', 'restr:all-fixed', 'restr:dup-fixed', 'restr:dup-mobile',
+REQUIRED_CLASSES = ('restraint-array:refilled-by-the-caller-afterwards', 'calculator:pickle', 'place:coincident', 'place:far-from-origin', 'place:far-from-origin-aligned', 'mobile-array:same-object-overwritten', 'mobile-array:strided-or-fortran', 'restr:none', 'restr:partial', 'restr:all-fixed', 'restr:dup-fixed', 'restr:dup-mobile',
                     'penalty:k>0', 'penalty:k=0', 'embedded:mc')
 RULE = ('calculators over (fixed size 1..40, mobile size 1..25, restraint class, placement class); each is '
         'evaluated on 4 configurations different from the construction one. Non-trivial: at least two mobile '
@@ -218,7 +218,7 @@ def run_calc(ctx, case):
         form = int(rng.integers(0, 3))
         arg = restr
         if restr:
-            arg = [restr, np.array(restr), [list(p) for p in restr]][form]
+            arg = [restr, np.array(restr, dtype=[np.intp, np.int64, np.int32][it % 3]), [list(p) for p in restr]][form]
         Calc = gaddlemaps.Chi2Calculator            # the proxy
         try:
             calc = Calc(fixed, mobile0, arg)
@@ -229,6 +229,13 @@ def run_calc(ctx, case):
         classes = classify_restr(restr, nf)
         for c in ([classes] if isinstance(classes, str) else classes):
             ctx.hit('restr:' + c)
+        if restr and form == 1:
+            # the caller's restraint array is a work buffer: it is refilled (for the next calculator) while this calculator
+            # is still in use; the measure is defined by the restraints the calculator was given
+            arg[:, 1] = np.roll(arg[:, 1], 1)
+            arg[0] = ((int(arg[0, 0]) + 1) % nf, (int(arg[0, 1]) + 1) % nm)
+            ctx.hit('restraint-array:refilled-by-the-caller-afterwards')
+            arg = np.array(restr)          # (later calculators of this case get the restraints themselves again)
         fixed_before = fixed.copy()
         buf = np.empty((nm, 3))
         reuse = it % 2 == 1         # every evaluation passes the same array object, overwritten in place (as the search loop may)
